@@ -410,7 +410,7 @@ Section Safe.
   Qed.
 
   (** ** the initial configuration *)
-  Definition l0 : L := mkL PIdle 0 0 0%N 0 0 0 0.
+  Definition l0 : L := mkL PIdle 0 0 0%N 0 0 0 0 [].
   Definition A0 : Aux := mkAux (fun a => if Nat.eqb a 0 then Some (0, 0%N) else None) (fun _ => l0).
 
   Lemma Inv_init : Inv init A0 [].
@@ -430,6 +430,7 @@ Section Safe.
     - intros n _ _ j. reflexivity.
     - intros t. reflexivity.
     - intros t. split; intros H; congruence.
+    - intros t n x H. cbn in H. contradiction.
   Qed.
 
   Lemma nth_thread_progs fuel : forall ths t0 t p,
